@@ -85,7 +85,7 @@ def load_known(prop):
 
 def match_known(known, name=None, tag=None):
     for k in known:
-        if name is not None and any(name == m or (m.endswith("*") and name.startswith(m[:-1])) for m in k.get("obligations", [])):
+        if name is not None and any(__import__("fnmatch").fnmatchcase(name, m.replace("[", "[[]")) for m in k.get("obligations", [])):
             return k
         if tag is not None and tag in k.get("standin_tags", []):
             return k
